@@ -17,6 +17,8 @@ pub fn defs() -> Vec<ScenDef> {
         d("spawn", spawn as fn(&mut Exec) -> Res, false, None),
         d("spawnp", spawn, false, Some(4)),
         d("coldpin", coldpin, false, None),
+        d("yieldspin", yieldspin, false, None),
+        d("yieldspinio", yieldspinio, false, None),
         d("park", park, false, None),
         d("tmr", tmr, false, None),
         d("tmrmix", tmrmix, false, None),
@@ -311,6 +313,226 @@ fn coldpin(x: &mut Exec) -> Res {
         if n != want {
             return viol(format!("pinned spawn: child #{} ran {} times", i, n));
         }
+    }
+    Ok(())
+}
+
+
+// ------------------------------------------------------------------------------------ C01 (fairness towards woken coroutines)
+/// Every worker is kept busy by coroutines that do nothing but `yield_now()` until a flag is set; the flag is set by a
+/// coroutine that becomes ready *from outside the workers*: its sleep ends (timer thread), a thread unparks it, a thread
+/// spawns it, a thread sends it a message / posts its semaphore. It "runs to its end no matter how often [the others]
+/// yield" only if the workers look at their hand-off queue while their local queue is never empty. The oracle counts
+/// logical steps: yields executed by all spinners *after* the waker's call has returned.
+fn yieldspin(x: &mut Exec) -> Res {
+    yieldspin_impl(x, false)
+}
+fn yieldspinio(x: &mut Exec) -> Res {
+    yieldspin_impl(x, true)
+}
+fn yieldspin_impl(x: &mut Exec, io: bool) -> Res {
+    const NOT_YET: u64 = u64::MAX;
+    let workers = x.workers;
+    let spinners = workers + x.rng.below(3) as usize;
+    let kind = if io { 5 + x.rng.below(2) } else { x.rng.below(5) };
+    let limit: u64 = if x.thorough { 12_000_000 } else { 4_000_000 };
+    let dur_us = x.rng.range(200, 3000);
+    let pre_us = x.rng.below(1500);
+    let done = Arc::new(AtomicBool::new(false));
+    let abort = Arc::new(AtomicBool::new(false));
+    let yields = Arc::new(AtomicU64::new(0));
+    let mark = Arc::new(AtomicU64::new(NOT_YET));
+    let started = Arc::new(AtomicUsize::new(0));
+    let errs = Arc::new(std::sync::Mutex::new(Vec::<String>::new()));
+    let t0 = Instant::now();
+    let what = ["sleep ends (timer thread)", "unparked by a thread", "spawned by a thread", "mpsc message sent by a thread", "semaphore posted by a thread", "datagram sent by a thread (udp recv)", "io timeout expires (udp recv with read timeout)"][kind as usize];
+    for i in 0..spinners {
+        let (done, abort, yields, mark, started, errs) = (done.clone(), abort.clone(), yields.clone(), mark.clone(), started.clone(), errs.clone());
+        x.spawn(&format!("spin{}", i), true, move |a| {
+            a.call("spin", i as u64);
+            started.fetch_add(1, SeqCst);
+            let mut mine = 0u64;
+            loop {
+                if done.load(Acquire) || abort.load(Relaxed) {
+                    break;
+                }
+                mine += 1;
+                let y = yields.fetch_add(1, Relaxed) + 1;
+                let m = mark.load(Relaxed);
+                if m == NOT_YET {
+                    // timed kinds have no waker whose return could be observed: start counting a generous second after
+                    // the deadline (wall clock only ever *delays* the count, the verdict is in yields)
+                    if (kind == 0 || kind == 6) && mine % 1024 == 0 && t0.elapsed() > Duration::from_micros(dur_us + pre_us) + Duration::from_secs(1) {
+                        let _ = mark.compare_exchange(NOT_YET, y, SeqCst, SeqCst);
+                    }
+                } else if y > m + limit {
+                    if !abort.swap(true, SeqCst) {
+                        errs.lock().unwrap().push(format!("the workers executed {} yields after the coroutine became ready ({}) and it still has not run", y - m, what));
+                    }
+                    break;
+                }
+                coroutine::yield_now();
+            }
+            a.ret("spin", i as u64, mine);
+        });
+    }
+    let wait_started = {
+        let started = started.clone();
+        move || {
+            let t = Instant::now();
+            while started.load(SeqCst) < spinners && t.elapsed() < Duration::from_secs(4) {
+                std::thread::sleep(Duration::from_micros(50));
+            }
+            started.load(SeqCst) >= spinners
+        }
+    };
+    let gave_up = Arc::new(AtomicBool::new(false));
+    match kind {
+        0 => {
+            let done = done.clone();
+            x.spawn("late", true, move |a| {
+                nap(pre_us);
+                a.call("sleep", dur_us);
+                coroutine::sleep(Duration::from_micros(dur_us));
+                a.ret("sleep", dur_us, 0);
+                done.store(true, Release);
+            });
+        }
+        1 => {
+            let slot: Arc<std::sync::Mutex<Option<coroutine::Coroutine>>> = Arc::new(std::sync::Mutex::new(None));
+            let token = Arc::new(AtomicBool::new(false));
+            let (done2, slot2, token2) = (done.clone(), slot.clone(), token.clone());
+            x.spawn("late", true, move |a| {
+                *slot2.lock().unwrap() = Some(coroutine::current());
+                a.call("park", 0);
+                while !token2.load(SeqCst) {
+                    coroutine::park();
+                }
+                a.ret("park", 0, 0);
+                done2.store(true, Release);
+            });
+            let (mark, yields, gave_up) = (mark.clone(), yields.clone(), gave_up.clone());
+            x.spawn("waker", false, move |a| {
+                let ok = wait_started();
+                let t = Instant::now();
+                while slot.lock().unwrap().is_none() && t.elapsed() < Duration::from_secs(4) {
+                    std::thread::sleep(Duration::from_micros(50));
+                }
+                let co = slot.lock().unwrap().take();
+                nap(pre_us);
+                token.store(true, SeqCst);
+                match co {
+                    Some(co) if ok => {
+                        a.call("unpark", 0);
+                        co.unpark();
+                        a.ret("unpark", 0, 0);
+                        mark.store(yields.load(SeqCst), SeqCst);
+                    }
+                    Some(co) => {
+                        gave_up.store(true, SeqCst);
+                        co.unpark();
+                    }
+                    None => gave_up.store(true, SeqCst),
+                }
+            });
+        }
+        2 => {
+            let (done, mark, yields, gave_up) = (done.clone(), mark.clone(), yields.clone(), gave_up.clone());
+            x.spawn("waker", false, move |a| {
+                if !wait_started() {
+                    gave_up.store(true, SeqCst);
+                }
+                nap(pre_us);
+                a.call("spawn", 0);
+                let d2 = done.clone();
+                let h = unsafe { coroutine::spawn(move || d2.store(true, Release)) };
+                a.ret("spawn", 0, 0);
+                mark.store(yields.load(SeqCst), SeqCst);
+                a.call("join", 0);
+                let _ = h.join();
+                a.ret("join", 0, 0);
+            });
+        }
+        3 => {
+            let (tx, rx) = mpsc::channel::<u32>();
+            let done2 = done.clone();
+            x.spawn("late", true, move |a| {
+                a.call("recv", 0);
+                let r = rx.recv();
+                a.ret("recv", 0, r.is_ok() as u64);
+                done2.store(true, Release);
+            });
+            let (mark, yields, gave_up) = (mark.clone(), yields.clone(), gave_up.clone());
+            x.spawn("waker", false, move |a| {
+                if !wait_started() {
+                    gave_up.store(true, SeqCst);
+                }
+                nap(pre_us);
+                a.call("send", 0);
+                let _ = tx.send(7);
+                a.ret("send", 0, 0);
+                mark.store(yields.load(SeqCst), SeqCst);
+            });
+        }
+        4 => {
+            let sem = Arc::new(Semphore::new(0));
+            let (done2, sem2) = (done.clone(), sem.clone());
+            x.spawn("late", true, move |a| {
+                a.call("sem_wait", 0);
+                sem2.wait();
+                a.ret("sem_wait", 0, 0);
+                done2.store(true, Release);
+            });
+            let (mark, yields, gave_up) = (mark.clone(), yields.clone(), gave_up.clone());
+            x.spawn("waker", false, move |a| {
+                if !wait_started() {
+                    gave_up.store(true, SeqCst);
+                }
+                nap(pre_us);
+                a.call("post", 0);
+                sem.post();
+                a.ret("post", 0, 0);
+                mark.store(yields.load(SeqCst), SeqCst);
+            });
+        }
+        _ => {
+            let sock = may::net::UdpSocket::bind(lo0()).map_err(|e| Fail::Inconclusive(format!("bind: {}", e)))?;
+            let addr = sock.local_addr().unwrap();
+            if kind == 6 {
+                sock.set_read_timeout(Some(Duration::from_micros(dur_us.max(1000)))).unwrap();
+            }
+            let done2 = done.clone();
+            x.spawn("late", true, move |a| {
+                nap(pre_us);
+                let mut buf = [0u8; 16];
+                a.call("udp_recv", kind);
+                let r = sock.recv_from(&mut buf);
+                a.ret("udp_recv", kind, r.is_ok() as u64);
+                done2.store(true, Release);
+            });
+            if kind == 5 {
+                let (mark, yields, gave_up) = (mark.clone(), yields.clone(), gave_up.clone());
+                x.spawn("waker", false, move |a| {
+                    if !wait_started() {
+                        gave_up.store(true, SeqCst);
+                    }
+                    nap(pre_us + 300);
+                    let s = std::net::UdpSocket::bind(lo0()).unwrap();
+                    a.call("send_to", 0);
+                    let _ = s.send_to(b"x", addr);
+                    a.ret("send_to", 0, 0);
+                    mark.store(yields.load(SeqCst), SeqCst);
+                });
+            }
+        }
+    }
+    x.desc = format!("{} spinners that only yield on {} workers; the flag is set by a coroutine that becomes ready when: {} (limit {} yields)", spinners, workers, what, limit);
+    x.wait_all()?;
+    if gave_up.load(SeqCst) {
+        return Err(Fail::Inconclusive("the spinners had not all started after 4s: the waker went ahead without counting".into()));
+    }
+    if let Some(e) = errs.lock().unwrap().first() {
+        return Err(Fail::Suspect(format!("yield fairness: {}", e)));
     }
     Ok(())
 }
